@@ -540,7 +540,7 @@ def check(prop, tier, only=None, keep=False):
                 pu.sort(key=lambda u: -u.get("cost", 1))
                 log("[check] kani: %d obligation(s) in %s, -j %d, harness timeout %ds" % (len(pu), pkg, min(jobs, len(pu)), timeout))
                 # batches bound kani-driver's memory (it keeps every harness's CBMC output in RAM)
-                chunk = int(os.environ.get("VERIF_CHUNK", "24"))
+                chunk = int(os.environ.get("VERIF_CHUNK", "40"))
                 batches = [pu[i::max(1, (len(pu) + chunk - 1) // chunk)] for i in range(max(1, (len(pu) + chunk - 1) // chunk))]
                 for bi, batch in enumerate(batches):
                     log("[check]   batch %d/%d: %d obligation(s)" % (bi + 1, len(batches), len(batch)))
